@@ -7,6 +7,8 @@ import (
 	"errors"
 	"fmt"
 	"os"
+	"runtime"
+	"strconv"
 	"strings"
 	"sync"
 	"time"
@@ -41,6 +43,45 @@ type FailKV struct {
 	mask uint64
 	n    uint
 	log  []Write
+
+	// gate: the next relevant write issued by a goroutine other than skip parks until Release
+	armed   bool
+	skip    int64
+	parked  chan struct{}
+	release chan struct{}
+}
+
+// GoID returns the id of the calling goroutine (parsed from its stack header; used only to tell the
+// writes of two concurrently running operations apart).
+func GoID() int64 {
+	var buf [64]byte
+	n := runtime.Stack(buf[:], false)
+	f := strings.Fields(string(buf[:n]))
+	if len(f) < 2 {
+		return -1
+	}
+	id, _ := strconv.ParseInt(f[1], 10, 64)
+	return id
+}
+
+// ArmPark makes the next relevant write of any goroutine except skip (0: none excepted) wait, after it
+// has been logged and before it takes effect.  The returned channel is closed when a write has parked;
+// the returned function lets that write go on.
+func (f *FailKV) ArmPark(skip int64) (<-chan struct{}, func()) {
+	f.mu.Lock()
+	defer f.mu.Unlock()
+	f.armed, f.skip = true, skip
+	f.parked, f.release = make(chan struct{}), make(chan struct{})
+	rel := f.release
+	var once sync.Once
+	return f.parked, func() { once.Do(func() { close(rel) }) }
+}
+
+// Disarm cancels an ArmPark that has not parked anything.
+func (f *FailKV) Disarm() {
+	f.mu.Lock()
+	f.armed = false
+	f.mu.Unlock()
 }
 
 // Arm starts a new numbering with the given mask and clears the log.
@@ -66,6 +107,14 @@ func (f *FailKV) decide(key string, remove bool) bool {
 	fail := f.n < 64 && f.mask>>f.n&1 == 1
 	f.n++
 	f.log = append(f.log, Write{Key: key, Remove: remove, Failed: fail})
+	if f.armed && (f.skip == 0 || GoID() != f.skip) {
+		f.armed = false
+		rel := f.release
+		close(f.parked)
+		f.mu.Unlock()
+		<-rel
+		f.mu.Lock()
+	}
 	return fail
 }
 
